@@ -17,7 +17,7 @@ from .c01 import covers
 LEVEL = "exploration"
 RULE = ("sequential (non-seeking) recipes from the typed grammar x inputs: canonical encodings; each with bit flips, insertions, deletions, truncations; "
         "random and boundary-biased strings; classic non-canonical forms (non-minimal VarInts, flags 02..ff, arbitrary padding bytes, trailing bytes inside "
-        "length-delimited regions, overlong prefixes); plus every gallery/deprecated_gallery format on every blob in tests/*/blobs and on blobs with "
+        "length-delimited regions, overlong prefixes, Selects whose earlier alternative fails late on build); plus every gallery/deprecated_gallery format on every blob in tests/*/blobs and on blobs with "
         "flipped bytes. non-trivial = an accepted input whose rebuilt bytes differ from it (normalisation happened); distinct by (recipe shape, input class)")
 ASSUMPTIONS = ["inputs that parse rejects are not accepted inputs and claim nothing", "NaNs compare as one class"]
 REQUIRED_ANCHORS = ["core:Flag._build", "core:Padded._build", "core:Prefixed._build", "core:FixedSized._build", "core:NullTerminated._build", "core:Aligned._build",
